@@ -397,7 +397,8 @@ def apply_mutator(obj, s, st_, ctx):
             (a, b), (c_, d_) = obj.domain
             obj.evaluate(start_u=a, stop_u=a + (b - a) * 0.5, start_v=c_ + (d_ - c_) * 0.25, stop_v=d_)
         else:
-            return obj, None
+            (a, b), (c_, d_), (e_, f_) = obj.domain
+            obj.evaluate(start_u=a, stop_u=a + (b - a) * 0.5, start_v=c_ + (d_ - c_) * 0.25, stop_v=d_, start_w=e_, stop_w=e_ + (f_ - e_) * 0.75)
         obj.evaluate()
         return obj, m
     if m == "convert_side":
@@ -528,11 +529,11 @@ def read_cview(cont, view):
     raise ValueError(view)
 
 
-def fresh_container(cont):
+def fresh_container(cont, delta=None):
     cls = cont.__class__
     elems = [fresh(e, True) for e in cont]
     new = cls(*elems)
-    new.delta = cont.delta
+    new.delta = cont.delta if delta is None else (delta[0] if cont.pdimension == 1 else list(delta))
     return new
 
 
@@ -540,15 +541,18 @@ def check_container(case, ctx):
     kind = case["shapes"][0]["kind"]
     cls = {"curve": multi.CurveContainer, "surface": multi.SurfaceContainer, "volume": multi.VolumeContainer}[kind]
     pool = [build.make(d) for d in case["shapes"]]
-    cont = cls(*pool[:case["start"]])
+    cont = build.container(cls, pool[:case["start"]], len(case["shapes"][0]["P"]))          # filled in one of the documented ways
     nxt = case["start"]
     cont.delta = 0.25
+    model = [0.25] * cont.pdimension          # the densities the caller asked for, direction by direction
     # model of the recorded finding: a cached container view read before an element was edited behind its back
     cached = set()
     dirty = set()
 
     def do_read(views, what):
-        fr = fresh_container(cont)
+        fr = fresh_container(cont, model)
+        now = [cont.delta] if isinstance(cont.delta, float) else list(cont.delta)
+        ctx.check(now == model, "container-delta-not-as-set", "%s: the container reports delta %r, the setters were given %r" % (what, now, model))
         for v in views:
             if v in dirty:
                 ctx.label("class:container-cache-vs-element-edit")
@@ -585,11 +589,13 @@ def check_container(case, ctx):
                 dirty.clear()
         elif m == "delta":
             cont.delta = 1.0 / s["n"]
+            model = [1.0 / s["n"]] * cont.pdimension
             seq.append(m)
             cached.clear()
             dirty.clear()
         elif m == "sample":
             cont.sample_size = s["n"]
+            model = [cont.delta] if isinstance(cont.delta, float) else list(cont.delta)          # (how a count maps to a step is the library's business)
             seq.append(m)
             cached.clear()
             dirty.clear()
@@ -602,8 +608,10 @@ def check_container(case, ctx):
         elif m in ("delta_dir", "sample_dir"):
             # per-direction density setters of surface / volume containers
             if cont.pdimension > 1:
-                nm = ("delta_" if m == "delta_dir" else "sample_size_") + "uvw"[s["i"] % cont.pdimension]
+                k_ = s["i"] % cont.pdimension
+                nm = ("delta_" if m == "delta_dir" else "sample_size_") + "uvw"[k_]
                 setattr(cont, nm, 1.0 / s["n"] if m == "delta_dir" else s["n"])
+                model[k_] = 1.0 / s["n"] if m == "delta_dir" else list(cont.delta)[k_]          # the other directions keep what they had
                 seq.append(m)
                 cached.clear()
                 dirty.clear()
@@ -623,7 +631,7 @@ def check_container(case, ctx):
             if nxt < len(pool):
                 c.add(pool[nxt])
                 ctx.check(len(cont) == n_before and len(c) == n_before + 1, "copy-not-independent", "adding to a deep copy of a container changed the original's length")
-            frc = fresh_container(c)
+            frc = fresh_container(c, model)
             for v in ("evalpts", "bbox"):
                 ctx.check(_deep_eq(read_cview(c, v), read_cview(frc, v)), "copy-stale-" + v, "view '%s' of a deep-copied container differs from a fresh container" % v)
             for v, val in before.items():
@@ -632,7 +640,7 @@ def check_container(case, ctx):
         elif m == "ops_copy":
             r = operations.translate(cont, s["vec"][:cont.dimension])
             ctx.check(r is not cont, "ops-copy-returned-input", "operations.translate(container) without inplace returned its input")
-            frc = fresh_container(r)
+            frc = fresh_container(r, model)
             for v in ("evalpts", "bbox"):
                 ctx.check(_deep_eq(read_cview(r, v), read_cview(frc, v)), "copy-stale-" + v, "view '%s' of a translated container copy differs from a fresh container" % v)
             seq.append(m)
